@@ -159,14 +159,25 @@ def handler : Handler S where
           let haveDec := match decIn with | .missing => false | _ => true
           -- the library-only input must be present exactly when the model needs it and the decoder is reached
           let srv : Server := ⟨s.cfg, s.custom⟩
-          let out := match serveP s.snap codec srv rq with
+          let rdMode : Option ReadMode :=
+            match (kv rest "rd").map (fun t => t.splitOn ":") with
+            | none => some .all
+            | some ["all"] => some .all
+            | some ["chunk", _] => some .all
+            | some ["partial", k] => k.toNat?.map ReadMode.upTo
+            | some ["none"] => some .none
+            | _ => none
+          match rdMode with
+          | none => (s, ["obs bad-op rd"])
+          | some rdMode =>
+          let out := Outcome.read rdMode <| match serveP s.snap codec srv rq with
             | .rejected st => Outcome.rejected (match s.eh with | some f => f st | none => st)   -- = `serveE`
             | o => o
           let reached := match decoderFor srv rq.encoding with
             | some (.lib _) => true
             | _ => false
           if needDec && reached && !haveDec then (s, ["obs bad-op dec-input-missing"]) else
-          let info : ReqInfo := { sent := if garbage then none else some b, wireLen := rq.wire.data.length,
+          let info : ReqInfo := { sent := if garbage then none else some (handlerReads rdMode ⟨b, true⟩).data, wireLen := rq.wire.data.length,
                                   hashed := !garbage, plainLen := b.length, plain := b }
           ({ s with cur := some info },
            [s!"obs sent enc={hex rq.encoding} n={if rq.encoding = "" then 0 else 1} wire={rq.wire.data.length}", showOutcome (!garbage) out])
